@@ -228,7 +228,7 @@ def scenario(case, files):
     r = Run()
     from ncclient.manager import Manager
     dh = p.device_handler()
-    if path in ('close', 'close_twice', 'race_reply', 'race_read', 'race_submit', 'peer_drop', 'close_in_callback'):
+    if path in ('close', 'close_twice', 'race_reply', 'race_read', 'race_submit', 'peer_drop', 'close_in_callback', 'slow_listener'):
         r.s, r.peer, err = opn(rpc='hold')
         assert err is None, err
         r.s._plog_add('HelloOk')
@@ -240,8 +240,22 @@ def scenario(case, files):
                     if 'rpc-reply' in root[0]: sess.close()
                 def errback(self, ex): pass
             r.s.add_listener(Closer())
-        submit(r, npend if path != 'close_in_callback' else max(npend, 1))
-        if path == 'race_reply':
+        if path == 'slow_listener':
+            # an application listener that is slow on the first message: close() is called while the worker is busy in it
+            from ncclient.transport.session import SessionListener
+            class Slow(SessionListener):
+                def __init__(self): self.n = 0
+                def callback(self, root, raw):
+                    self.n += 1
+                    if self.n == 1: time.sleep(case.get('sleep', 1.4))
+                def errback(self, ex): pass
+            r.s.add_listener(Slow())
+        submit(r, npend if path not in ('close_in_callback', 'slow_listener') else max(npend, 1 if path == 'close_in_callback' else 2))
+        if path == 'slow_listener':
+            r.peer.release()                      # every held reply at once: the second is dispatched after the slow callback
+            time.sleep(0.15)
+            r.s.close(); r.t_ret = p.now()
+        elif path == 'race_reply':
             th = threading.Thread(target=r.peer.release); th.start()
             if case.get('delay'): time.sleep(case['delay'])
             r.s.close(); r.t_ret = p.now(); th.join()
@@ -551,6 +565,7 @@ def gen_cases(kind, rng, thorough):
     for n in (1, 2, 3):
         cs.append(dict(transport=kind, path='race_read', pending=n))
     cs.append(dict(transport=kind, path='close_twice', pending=1))
+    cs.append(dict(transport=kind, path='slow_listener', pending=2, sleep=1.4))
     cs.append(dict(transport=kind, path='race_submit', pending=1))
     for n in (1, 2):
         cs.append(dict(transport=kind, path='close_in_callback', pending=n))
@@ -622,7 +637,7 @@ def check_case(ctx, case, files, model, retries=3):
 def run(ctx):
     thorough = ctx.tier == 'thorough'
     kinds = ['unix'] + (['tls', 'ssh'] if thorough else [])
-    files = _files(kinds)
+    files = _files(kinds if thorough else kinds + ['ssh'])
     from vlib import paths
     cdir = os.path.join(paths.CORPUS, ID)
     corpus = []
@@ -653,6 +668,13 @@ def run(ctx):
             if all(x['fd_delta'] > 0 or x['threads_delta'] > 0 for x in (lk2, lk3)):
                 ctx.fail(dict(transport=kind, path='cycles', n=n), 'open/close cycles leak: %r' % lk, sig=None,
                          expected='no growth of live threads / open descriptors', actual=lk)
+    if not thorough and not (ctx.failures or len(ctx.disagreements) >= 3):
+        # quick tier: the SSH transport is represented by its three most distinctive paths
+        for case in (dict(transport='ssh', path='failed_connect', fault='badpw'), dict(transport='ssh', path='close', pending=1),
+                     dict(transport='ssh', path='close_session', close_rpc='ok_close', pending=0, rpc_timeout=0.3)):
+            res = check_case(ctx, case, files, ctx.model)
+            ctx.count(case); ctx.hist('transport', 'ssh'); ctx.hist('path', case['path'])
+            ctx.traces += 1 if res['model'] is not None and res['model'].get('accepted') else 0
     ctx.exhaustive = False
 
 def search(ctx, seeds):
